@@ -336,6 +336,26 @@ fn check_world(w: &mut World, case: &HistCase, st: &mut Stats) -> Result<(), Fai
     for mi in 0..w.models.len() {
         let model = w.models[mi].clone();
         let files: Vec<ArxmlFile> = model.files().collect();
+        if files.len() > 1 {
+            // several files (possibly of several versions): what each file writes must be valid in that file's version
+            for f in &files {
+                st.class("files-of-multi-file-models-checked");
+                let Ok(text) = f.serialize() else { continue };
+                let m2 = AutosarModel::new();
+                match m2.load_buffer(text.as_bytes(), "reload.arxml", false) {
+                    Ok((_, warnings)) => {
+                        for wn in &warnings {
+                            let v = crate::loader::err_info(wn).variant;
+                            if v != "Parser::RequiredAttributeMissing" {
+                                return Err(fail_h(&format!("reload:warning:{v}"), format!("reloading the text written for {} ({:?}) of model {mi} warns: {wn}\n{}", f.filename().display(), f.version(), &text[..text.len().min(1500)]), w, case));
+                            }
+                        }
+                    }
+                    Err(e) => return Err(fail_h(&format!("reload:rejected:{}", crate::hist::err_variant(&e)), format!("the text written for {} of model {mi} is rejected by lenient loading: {e}\n{}", f.filename().display(), &text[..text.len().min(1500)]), w, case)),
+                }
+            }
+            continue;
+        }
         if files.len() != 1 {
             continue;
         }
@@ -485,7 +505,7 @@ pub fn run(ctx: &Ctx) {
         }
     }
     let weights: Vec<(u32, u32)> = weights.into_iter().filter(|x| x.1 > 0).collect();
-    let strat = (0u32..12, proptest::collection::vec(op_strategy(&weights), 0..30));
+    let strat = (0u32..16, proptest::collection::vec(op_strategy(&weights), 0..30));
     run_prop(ctx, "histories", n, strat, |(fixture, ops), st| {
         let case = HistCase { fixture: *fixture, ops: ops.clone() };
         match run_history(&case, st, &known_open, &|f| {
